@@ -239,29 +239,29 @@ func c07Cases(tier string, emit func(c c07Case)) {
 	lines := strings.Split(strings.TrimRight(pm, "\n"), "\n")
 	body := strings.Join(lines[1:len(lines)-1], "")
 	frames := map[string]string{
-		"no-end-line":        strings.Join(lines[:len(lines)-1], "\n") + "\n",
-		"armour-only":        lines[0] + "\n" + lines[len(lines)-1] + "\n",
-		"begin-only":         lines[0] + "\n",
-		"begin-no-newline":   lines[0],
-		"five-dashes":        "-----",
-		"ten-dashes":         "----------\n",
-		"empty":              "",
-		"only-newlines":      "\n\n\n",
-		"line65":             lines[0] + "\n" + rewrap(body, 65) + lines[len(lines)-1] + "\n",
-		"line66":             lines[0] + "\n" + rewrap(body, 66) + lines[len(lines)-1] + "\n",
-		"line67":             lines[0] + "\n" + rewrap(body, 67) + lines[len(lines)-1] + "\n",
-		"line1000":           lines[0] + "\n" + rewrap(body, 1000) + lines[len(lines)-1] + "\n",
-		"one-line":           lines[0] + "\n" + body + "\n" + lines[len(lines)-1] + "\n",
-		"no-final-newline":   strings.TrimRight(pm, "\n"),
-		"cr-only":            strings.ReplaceAll(pm, "\n", "\r"),
-		"mixed-crlf":         strings.Replace(pm, "\n", "\r\n", 3),
-		"blank-lines":        strings.ReplaceAll(pm, "\n", "\n\n"),
-		"leading-blank":      "\n" + pm,
-		"leading-spaces":     "   " + pm,
-		"garbage-in-body":    lines[0] + "\n!!!!" + rewrap(body, 64) + lines[len(lines)-1] + "\n",
-		"double-begin":       lines[0] + "\n" + pm,
-		"nul-bytes":          lines[0] + "\n\x00\x00\x00\x00\n" + lines[len(lines)-1] + "\n",
-		"huge-header-line":   "-----BEGIN " + strings.Repeat("A", 100000) + "-----\n" + rewrap(body, 64) + lines[len(lines)-1] + "\n",
+		"no-end-line":          strings.Join(lines[:len(lines)-1], "\n") + "\n",
+		"armour-only":          lines[0] + "\n" + lines[len(lines)-1] + "\n",
+		"begin-only":           lines[0] + "\n",
+		"begin-no-newline":     lines[0],
+		"five-dashes":          "-----",
+		"ten-dashes":           "----------\n",
+		"empty":                "",
+		"only-newlines":        "\n\n\n",
+		"line65":               lines[0] + "\n" + rewrap(body, 65) + lines[len(lines)-1] + "\n",
+		"line66":               lines[0] + "\n" + rewrap(body, 66) + lines[len(lines)-1] + "\n",
+		"line67":               lines[0] + "\n" + rewrap(body, 67) + lines[len(lines)-1] + "\n",
+		"line1000":             lines[0] + "\n" + rewrap(body, 1000) + lines[len(lines)-1] + "\n",
+		"one-line":             lines[0] + "\n" + body + "\n" + lines[len(lines)-1] + "\n",
+		"no-final-newline":     strings.TrimRight(pm, "\n"),
+		"cr-only":              strings.ReplaceAll(pm, "\n", "\r"),
+		"mixed-crlf":           strings.Replace(pm, "\n", "\r\n", 3),
+		"blank-lines":          strings.ReplaceAll(pm, "\n", "\n\n"),
+		"leading-blank":        "\n" + pm,
+		"leading-spaces":       "   " + pm,
+		"garbage-in-body":      lines[0] + "\n!!!!" + rewrap(body, 64) + lines[len(lines)-1] + "\n",
+		"double-begin":         lines[0] + "\n" + pm,
+		"nul-bytes":            lines[0] + "\n\x00\x00\x00\x00\n" + lines[len(lines)-1] + "\n",
+		"huge-header-line":     "-----BEGIN " + strings.Repeat("A", 100000) + "-----\n" + rewrap(body, 64) + lines[len(lines)-1] + "\n",
 		"body-1MiB-no-newline": lines[0] + "\n" + strings.Repeat("A", 1<<20),
 	}
 	var fnames []string
@@ -311,10 +311,10 @@ func rewrap(body string, n int) string {
 // ---------------------------------------------------------------- running one case
 
 type c07Outcome struct {
-	Class  string // "", panic, alloc, (hang / fatal are detected by the parent)
-	Detail string
-	Result string // short classification of the normal result for outcome statistics
-	Alloc  uint64
+	Class     string // "", panic, alloc, (hang / fatal are detected by the parent)
+	Detail    string
+	Result    string // short classification of the normal result for outcome statistics
+	Alloc     uint64
 	WantsMore bool
 }
 
@@ -478,13 +478,13 @@ func c07TokClass(label string) string {
 // ---------------------------------------------------------------- worker / parent
 
 type c07WorkerOut struct {
-	Evaluations int                   `json:"evaluations"`
-	Lazy2       int                   `json:"lazy_depth2_cases"`
-	Outcomes    map[string]int        `json:"outcomes"`
-	Violations  []workerViolation     `json:"violations"`
-	MaxAlloc    uint64                `json:"max_alloc"`
-	MaxAllocLbl string                `json:"max_alloc_label"`
-	Next        int                   `json:"next"`
+	Evaluations int               `json:"evaluations"`
+	Lazy2       int               `json:"lazy_depth2_cases"`
+	Outcomes    map[string]int    `json:"outcomes"`
+	Violations  []workerViolation `json:"violations"`
+	MaxAlloc    uint64            `json:"max_alloc"`
+	MaxAllocLbl string            `json:"max_alloc_label"`
+	Next        int               `json:"next"`
 }
 
 func c07Worker(tier string, shard, nshards, resume int, progress string) int {
